@@ -151,15 +151,23 @@ def setVal (hash : κ → Nat) (s : State κ ν) (key : κ) (v : ν) : State κ 
   let index := hash key % s.tableLength
   setBucket s index ((bucket s index).map fun e => if e.key = key then { e with val := v } else e)
 
+/-- the loop of `remove`: `for (entry = table[index]; entry; entry = entry->Next())` with `prev`
+    trailing; `(prev, entry, the chain with entry unlinked)` for the first entry whose key matches -/
+def unlink (key : κ) : List (Entry κ ν) → Nat → Option (Nat × Entry κ ν × List (Entry κ ν))
+  | [], _ => none
+  | e :: rest, prev =>
+    if e.key = key then some (prev, e, rest)
+    else (unlink key rest e.id).map fun (p, x, r) => (p, x, e :: r)
+
 /-- `remove(key)` -/
 def remove (hash : κ → Nat) (s : State κ ν) (key : κ) : State κ ν × Bool :=
   let index := hash key % s.tableLength
   let c := bucket s index
-  -- the loop `for (entry = table[index]; entry; entry = entry->Next())` with `prev` trailing
-  match c.span (fun e => ¬ (e.key = key)) with
-  | (_, []) => (s, false)
-  | (pre, entry :: rest) =>
-    let prev := match pre.getLast? with | some p => p.id | none => 0
+  match unlink key c 0 with
+  | none => (s, false)
+  | some (prev, entry, c') =>
+    -- `if (defaultEntry == entry)`; when `table == &defaultEntry` the assignment below re-assigns
+    -- `table[index]`, i.e. `defaultEntry` itself (`prev` is null there: `entry` is the head)
     let s :=
       if defaultEntryPtr s = entry.id ∧ ¬ s.inl then
         -- defaultEntry = prev ? prev : table[index];
@@ -173,7 +181,7 @@ def remove (hash : κ → Nat) (s : State κ ν) (key : κ) : State κ ν × Boo
         { s with defaultEntry := d }
       else s
     -- prev ? prev->SetNext(entry->Next()) : table[index] = entry->Next();  (aliases defaultEntry when inl)
-    let s := setBucket s index (pre ++ rest)
+    let s := setBucket s index c'
     -- count--; DeleteEntry(entry);
     ({ s with count := s.count - 1, dtor := s.dtor + 1 }, true)
 
